@@ -180,3 +180,25 @@ def storeKey (leftAligned : Bool) (priv : Bytes) : Bytes :=
 def loadScalar (slot : Bytes) : Nat := bytesToNat slot
 
 end ElaVerif.WalletCodec
+
+namespace ElaVerif.WalletCodec
+
+/-! ### Client.MultiSign / SignMultiSignTransactionByM: how many signatures one wallet appends -/
+
+/-- the loop over the script's keys: `held` says for each script position whether the wallet has the key;
+    `j` = signatures made so far (`signerIndex = j - 1`); the loop stops after the signature that makes
+    `signerIndex == m`, i.e. after m + 1 signatures. -/
+def signByM (m : Nat) : List Bool → Nat → Nat
+  | [], j => j
+  | h :: rest, j =>
+    if !h then signByM m rest j
+    else if j = m then j + 1 else signByM m rest (j + 1)
+
+/-- the variant that uses the key's script POSITION as signerIndex (negation witness): stops at position m -/
+def signByMPos (m : Nat) : List Bool → Nat → Nat → Nat
+  | [], _, j => j
+  | h :: rest, pos, j =>
+    if !h then signByMPos m rest (pos + 1) j
+    else if pos = m then j + 1 else signByMPos m rest (pos + 1) (j + 1)
+
+end ElaVerif.WalletCodec
